@@ -204,3 +204,127 @@ Definition cp_base_ok (w : wid) : bool :=
 Definition cp_pass_ok : bool :=
   forallb cp_net_ok (nets nl) && forallb cp_base_ok (rdy0 nl).
 End CpOk.
+
+(* ---- links between a netlist and the result of one pass round (decidable) ------ *)
+
+Definition is_out_kind (k : kind) : bool := match k with KOutput => true | _ => false end.
+Definition is_src_kind (k : kind) : bool :=
+  match k with KInput | KReg _ => true | _ => false end.
+
+(* every Output of nl is represented by itself and is still declared, unchanged, in nl';
+   every Input of nl is still declared, unchanged, in nl' (Inputs and Outputs are kept);
+   every Input / Register of nl' is one of nl, unchanged (nothing is invented) *)
+Definition link_ok (nl nl' : netlist) (rho : wid -> wid) : bool :=
+  forallb (fun x => if is_out_kind (wkind x)
+                    then (rho (wname x) =? wname x)
+                         && owire_eqb (find_wire (wires nl') (wname x)) (find_wire (wires nl) (wname x))
+                    else true) (wires nl)
+  && forallb (fun x => match wkind x with
+                       | KInput => owire_eqb (find_wire (wires nl') (wname x)) (find_wire (wires nl) (wname x))
+                       | _ => true
+                       end) (wires nl)
+  && forallb (fun x' => if is_src_kind (wkind x')
+                        then owire_eqb (find_wire (wires nl) (wname x')) (find_wire (wires nl') (wname x'))
+                        else true) (wires nl').
+
+(* `while shrinking: pass` with a per-round decidable premise *)
+Fixpoint loop_ok (ok : netlist -> bool) (fuel : nat) (pass : netlist -> netlist)
+         (prev : Z) (nl : netlist) : bool :=
+  match fuel with
+  | O => true
+  | S f =>
+      let cur := Z.of_nat (length (nets nl)) in
+      if cur <=? prev - 1 then ok nl && loop_ok ok f pass cur (pass nl) else true
+  end.
+
+Definition shrinking_ok (ok : netlist -> bool) (pass : netlist -> netlist) (nl : netlist) : bool :=
+  loop_ok ok (S (S (length (nets nl)))) pass (1000 * Z.of_nat (length (nets nl))) nl.
+
+Definition cp_round_ok (nl : netlist) : bool :=
+  wfb nl && cp_pass_ok nl && link_ok nl (constant_prop_pass nl) (cp_rho nl).
+
+Definition constant_propagation_ok (nl : netlist) : bool :=
+  shrinking_ok cp_round_ok constant_prop_pass nl.
+
+(* ---- one CSE round as an instance of Pass/OptSimProofs --------------------------- *)
+
+Definition net_eqb (a b : net) : bool :=
+  op_eqb (nop a) (nop b) && list_Z_eqb (nargs a) (nargs b) && (ndest a =? ndest b).
+
+Fixpoint nets_eqb (a b : list net) : bool :=
+  match a, b with
+  | [], [] => true
+  | x :: a', y :: b' => net_eqb x y && nets_eqb a' b'
+  | _, _ => false
+  end.
+
+Definition cse_wm (nl : netlist) : list (Z * Z) := snd (cse_scan nl [] (nets nl)).
+Definition cse_rho (nl : netlist) (w : wid) : wid :=
+  match assoc (cse_wm nl) w with Some d => d | None => w end.
+Definition cse_gone (nl : netlist) (n : net) : bool :=
+  normal_dest nl n && match assoc (cse_wm nl) (ndest n) with Some _ => true | None => false end.
+Definition cse_tr (nl : netlist) (n : net) : list net :=
+  if cse_gone nl n then [] else [map_args (cse_rho nl) n].
+
+(* a discarded net has an earlier net with the same key, an equally wide destination,
+   and that destination is what it is replaced by; a kept net's wires keep their widths *)
+Definition cse_net_ok (nl : netlist) (pre : list net) (n : net) : bool :=
+  let nl' := cse_round nl in
+  let rho := cse_rho nl in
+  let d := ndest n in
+  if cse_gone nl n then
+    is_comb (nop n)
+    && existsb (fun n0 => (ndest n0 =? rho d) && key_eqb (cse_key nl n0) (cse_key nl n)
+                          && is_comb (nop n0)
+                          && (width_of nl (ndest n0) =? width_of nl d)) pre
+    && (rho (rho d) =? rho d)
+  else
+    forallb (fun a => declared nl' (rho a) && (width_of nl' (rho a) =? width_of nl a)) (nargs n)
+    && (if op_has_dest (nop n) then (rho d =? d) && (width_of nl' d =? width_of nl d) else true).
+
+Fixpoint cse_nets_ok (nl : netlist) (pre ns : list net) : bool :=
+  match ns with
+  | [] => true
+  | n :: r => cse_net_ok nl pre n && cse_nets_ok nl (pre ++ [n]) r
+  end.
+
+Definition cse_base_ok (nl : netlist) (w : wid) : bool :=
+  (cse_rho nl w =? w)
+  && (if declared (cse_round nl) w
+      then owire_eqb (find_wire (wires (cse_round nl)) w) (find_wire (wires nl) w) else true).
+
+Definition cse_pass_ok (nl : netlist) : bool :=
+  nets_eqb (nets (cse_round nl)) (flat_map (cse_tr nl) (nets nl))
+  && cse_nets_ok nl [] (nets nl)
+  && forallb (cse_base_ok nl) (rdy0 nl).
+
+Definition cse_round_ok (nl : netlist) : bool :=
+  wfb nl && cse_pass_ok nl && link_ok nl (cse_round nl) (cse_rho nl).
+
+Definition cse_ok (nl : netlist) : bool := shrinking_ok cse_round_ok cse_round nl.
+
+(* ---- stages of optimize() and their decidable premises --------------------------- *)
+
+Definition id_rho (w : wid) : wid := w.
+
+Definition wire_stage_ok (nl : netlist) : bool :=
+  wfb nl && wire_removal_ok nl && link_ok nl (remove_wire_nets nl) id_rho.
+
+Definition slice_stage_ok (nl : netlist) : bool :=
+  wfb nl && slice_removal_ok nl && link_ok nl (remove_slice_nets nl) id_rho.
+
+Definition unlistened_stage_ok (nl : netlist) : bool :=
+  unlistened_ok nl
+  && forallb (fun x => if is_out_kind (wkind x)
+                       then same_wire nl (remove_unlistened_nets nl)
+                                      (listened_net nl (listened_wires nl)) (wname x)
+                       else true) (wires nl)
+  && link_ok nl (remove_unlistened_nets nl) id_rho.
+
+Definition optimize_ok (nl : netlist) : bool :=
+  let n1 := remove_wire_nets nl in
+  let n2 := remove_slice_nets n1 in
+  let n3 := constant_propagation n2 in
+  let n4 := remove_unlistened_nets n3 in
+  wire_stage_ok nl && slice_stage_ok n1 && constant_propagation_ok n2
+  && unlistened_stage_ok n3 && cse_ok n4.
